@@ -186,7 +186,7 @@ def native_two_orders():
 
 def native_ties():
     """> 20 diagnostics, several pairs sharing a start position, several hash-ordered warnings: validate repeatedly."""
-    imports = ''.join('import q.U%d;\n' % k for k in range(14))
+    imports = ''.join('import q.U%d;\n' % k for k in range(30))
     methods = ''.join('  void m%d(Map a%d);\n' % (k, k) for k in range(12))
     files = {'a.aidl': 'package p;\n' + imports + 'interface I {\n' + methods + '}\n'}
     r = replay.determinism(files, 80)
